@@ -286,6 +286,51 @@ pub fn check(c: &Case) -> CheckResult {
         Err(e) => Err(e),
     };
     judge(&as_parse, "read_message")?;
+    // the same headers in the dialect real ECUs emit: left-over bytes behind the NUL that ends a short id (the id is what
+    // precedes the first NUL); the verdict depends on the decoded ids, so it must be the one of the canonical message
+    if c.siblings {
+        let s0 = if storage { 16 } else { 0 };
+        let mut twin = buf[..msg_len].to_vec();
+        let mut fields = vec![];
+        let mut at = s0 + 4;
+        if c.msg.htyp & WEID != 0 {
+            fields.push((at, c.msg.ecu.clone().unwrap_or_default()));
+            at += 4;
+        }
+        if c.msg.htyp & WSID != 0 {
+            at += 4;
+        }
+        if c.msg.htyp & WTMS != 0 {
+            at += 4;
+        }
+        if let Some(x) = &c.msg.ext {
+            fields.push((at + 2, x.apid.clone()));
+            fields.push((at + 6, x.ctid.clone()));
+        }
+        let mut changed = false;
+        for (pos, text) in fields {
+            if text.len() <= 2 && pos + 4 <= twin.len() {
+                for k in text.len() + 1..4 {
+                    twin[pos + k] = b'x' + k as u8;
+                    changed = true;
+                }
+            }
+        }
+        if changed {
+            let got = guard(|| dlt_message(&twin, Some(&pf), storage).map(|(r, pm)| (r.len(), pm))).map_err(|p| Violation::from_panic("dlt_message with filter", &p))?;
+            match (&got, dropped) {
+                (Ok((0, ParsedMessage::FilteredOut(n))), true) if *n == payload_len => {}
+                (Ok((0, ParsedMessage::Item(_))), false) => {}
+                _ => {
+                    return Err(viol!(
+                        format!("filter:dialect-ids:{}", reason),
+                        "the message with left-over bytes behind the NUL of its short ids ({}) must be {} like the canonical one ({}), got {}; {}",
+                        hex_short(&twin), if dropped { "dropped" } else { "kept" }, reason, short_dbg(&got), ctx()
+                    ))
+                }
+            }
+        }
+    }
     // "message for message": a whole stream through one reader / one thread; each verdict depends on that message alone
     let mut n_siblings = 0;
     if c.siblings {
